@@ -93,6 +93,32 @@ func steerMapInput(which string, t *big.Int) (*big.Int, bool) {
 		}
 
 		return nil, false
+	case "gx1num":
+		// the numerator SqrtRatio is called with (step 18): N = (tv3^2 + A tv4^2) tv3 + B tv4^3 with tv3 = B (w + 1),
+		// tv4 = -A w, w = tv2 of step 4:  N(w) = B^3 (w+1)^3 + A^3 B w^2 (w+1) - A^3 B w^3 = B^3 (w+1)^3 + A^3 B w^2
+		a3b := oracle.FMul(oracle.FMul(oracle.FSqr(oracle.IsoA), oracle.IsoA), oracle.IsoB)
+		b3 := oracle.FMul(oracle.FSqr(oracle.IsoB), oracle.IsoB)
+		three := big.NewInt(3)
+
+		for _, w := range oracle.PolyRoots(oracle.FSub(b3, v), oracle.FMul(three, b3), oracle.FAdd(oracle.FMul(three, b3), a3b), b3) {
+			if u, ok := fromTv2(w); ok {
+				return u, true
+			}
+		}
+
+		return nil, false
+	case "gx1den":
+		// the denominator of that call: tv6 = tv4^3 (same as "tv6")
+		return steerMapInput("tv6", t)
+	case "yden":
+		// y_den = x'^3 + k42 x'^2 + k41 x' + k40 = v
+		for _, x := range oracle.PolyRoots(oracle.FSub(oracle.K[3][0], v), oracle.K[3][1], oracle.K[3][2], big.NewInt(1)) {
+			if _, on := oracle.FSqrt(gIsoRef(x)); on {
+				return x, true
+			}
+		}
+
+		return nil, false
 	case "tv4":
 		// tv4 = A * (-tv2) is what step 25 inverts
 		return fromTv2(oracle.FNeg(oracle.FMul(v, oracle.FInv0(oracle.IsoA))))
@@ -184,6 +210,27 @@ func steeredMapInputs(c *mon.Ctx) (us, xs []steeredInput) {
 	for _, t := range inverted {
 		addU("tv4", t)
 		addX("xden", t)
+	}
+
+	// the numerator of the square-root call (cubic in tv2) and the isogeny's y denominator (cubic in x'): on the values whose
+	// negation differs from them in the low limb only, on small stored values, on limb-boundary values
+	var cubicTargets []*big.Int
+
+	half := new(big.Int).Rsh(p, 1)
+	for _, d := range []int64{0, 1, 2, 1 << 20, 1<<32 + 489, -(1 << 20), -(1<<32 + 489)} {
+		t := new(big.Int).Add(half, big.NewInt(d))
+		cubicTargets = append(cubicTargets, t, new(big.Int).Sub(p, t))
+	}
+
+	for i, t := range targets {
+		if i%c.N(9, 3) == int(c.Seed%uint64(c.N(9, 3))) {
+			cubicTargets = append(cubicTargets, t)
+		}
+	}
+
+	for _, t := range cubicTargets {
+		addU("gx1num", t)
+		addX("yden", t)
 	}
 
 	for _, t := range gen.HalfZeroTargets(p) {
